@@ -81,7 +81,7 @@ Theorem step_ack_last kind s0 w i w' effs :
   step kind s0 w i = Some (w', effs) -> forall m, ack_then_nothing m effs = true.
 Proof.
   intros H. apply ack_last_sound.
-  destruct i as [mm d n|t d n|corr ok|corr d n]; cbn [step] in H.
+  destruct i as [mm d n|t d n|corr ok|corr d n|t]; cbn [step] in H.
   - destruct (find_event mm (queue w)) as [e|]; [|discriminate].
     destruct (e_state e) as [s|].
     + destruct (decision_ok (kind s) d); [|discriminate]. eapply enter_ack_last; exact H.
@@ -101,6 +101,7 @@ Proof.
     destruct (find_held corr _) as [[e [t'|t'|t']]|]; try (proj H; fin).
     destruct (_ && _); [|discriminate]. proj H.
     apply (ack_last_finish_tail [ClearTimer t'; History (e_x e) (if ok then HTaskSucceeded else HTaskFailed)]). reflexivity.
+  - destruct (find_by_timer t (held w)) as [[e [t'|t'|t']]|]; try discriminate. proj H. fin.
 Qed.
 
 (* ------------------------------------------------------------ list utilities *)
@@ -672,7 +673,7 @@ Ltac projw H := apply some_fst in H; subst.
 
 Theorem step_inv kind s0 w i w' effs : Inv w -> step kind s0 w i = Some (w', effs) -> Inv w'.
 Proof.
-  intros I H. destruct i as [m d n|t d n|corr ok|corr d n]; cbn [step] in H.
+  intros I H. destruct i as [m d n|t d n|corr ok|corr d n|t]; cbn [step] in H.
   - destruct (find_event m (queue w)) as [e|] eqn:Hf; [|discriminate].
     pose proof (processing_queue w m e I Hf) as P. cbv zeta in P.
     destruct (e_state e) as [s|].
@@ -704,6 +705,9 @@ Proof.
     destruct (find_held_spec _ _ _ _ Hf) as (Hin & _).
     destruct (_ && id_ok w d n) eqn:Hc; [|discriminate]. apply andb_prop in Hc as (_ & Hid). projw H.
     apply (finished_held_inv w0 e (PPending t')); [exact I0|exact Hin|destruct ok; reflexivity|exact Hid].
+  - destruct (find_by_timer t (held w)) as [[e [t'|t'|t']]|] eqn:Hf; try discriminate.
+    destruct (find_by_timer_spec _ _ _ _ Hf) as (Hin & _). projw H.
+    apply (finished_held_inv w e (PPending t')); [exact I|exact Hin|reflexivity|reflexivity].
 Qed.
 
 (* ------------------------------------------------------- effects and the world *)
@@ -760,7 +764,7 @@ Qed.
 
 Theorem step_sync kind s0 w i w' effs : step kind s0 w i = Some (w', effs) -> synced w w' effs.
 Proof.
-  intros H. destruct i as [m d n|t d n|corr ok|corr d n]; cbn [step] in H.
+  intros H. destruct i as [m d n|t d n|corr ok|corr d n|t]; cbn [step] in H.
   - destruct (find_event m (queue w)) as [e|]; [|discriminate]. destruct (e_state e) as [s|].
     + destruct (decision_ok _ _); [|discriminate]. apply enter_sync in H. exact H.
     + destruct (decision_ok _ _); [|discriminate]. destruct (enter kind _ e s0 d n) as [[w2 effs2]|] eqn:He; [|discriminate].
@@ -782,6 +786,8 @@ Proof.
     match goal with |- synced _ (finished ?W0 _ _ _ _ _) _ =>
       apply (finished_sync W0 e _ _ _ [if ok then HTaskSucceeded else HTaskFailed]
                [ClearTimer t'; History (e_x e) (if ok then HTaskSucceeded else HTaskFailed)]); reflexivity end.
+  - destruct (find_by_timer t (held w)) as [[e [t'|t'|t']]|]; try discriminate. projp H.
+    apply (finished_sync w e _ _ _ [] []); reflexivity.
 Qed.
 
 (* -------------------------------------------------------------------- runs *)
